@@ -29,7 +29,8 @@ def to_np(dt, cells, shape, pool):
 def from_np(dt, arr, pool):
     arr = np.asarray(arr)
     if dt == "text":
-        return [pool.index(x if isinstance(x, str) else x.decode()) for x in arr.ravel()]
+        # text comes back as text: a bytes object is NOT the value that was written (no decoding on the harness's side)
+        return [pool.index(x) if isinstance(x, str) else -1 for x in arr.ravel()]
     if dt == "float32":
         return [int(x) for x in np.ascontiguousarray(arr, dtype=np.float32).view(np.uint32).ravel()]
     if dt == "float64":
@@ -67,8 +68,7 @@ def observe(da, dt, pool, refused):
             da.read_direct(buf)
             extra_ok = extra_ok and from_np(dt, buf, pool) == cells
         except Exception:
-            if dt != "text":
-                extra_ok = False
+            extra_ok = False
     if all(shape):
         # a single element comes back as a one-element array holding that element
         try:
